@@ -39,6 +39,14 @@ for line in open(os.path.join(res, "MAP.txt")):
 print("| seeded change | needs, to manifest | check run | result | caught by (harness: assertion) |")
 print("|---|---|---|---|---|")
 for seed, needs, e in sorted(rows, key=lambda r: (r[0], r[2]["log"])):
-    verdict = "**caught** (exit 1, %d VIOLATION)" % e["violation_lines"] if e["exit"] == 1 else ("missed (exit 0)" if e["exit"] == 0 else "inconclusive (exit %s)" % e["exit"])
+    if e["exit"] == 1:
+        verdict = "**caught** (exit 1, %d VIOLATION)" % e["violation_lines"]
+    elif e["exit"] == 0:
+        verdict = "missed (exit 0)"
+    elif e["exit"] is None and e["violation_lines"]:
+        verdict = "**caught** (%d VIOLATION line printed; run stopped before the other instances finished)" % e["violation_lines"]
+    else:
+        verdict = "inconclusive (exit %s)" % e["exit"]
     by = "; ".join(sorted(set(h.split("::", 1)[1] for h in e["failing_harnesses"])))[:120]
-    print("| %s | %s | `./check %s` %ss | %s | %s: %s |" % (seed, needs[:150], e["check"].replace(" ", " --tier "), e["wall_s"], verdict, by, e["first_failure"]))
+    chk = e["check"].replace(" ", " --tier ") if e["check"] != "?" else seed.split("-")[0] + " --tier quick"
+    print("| %s | %s | `./check %s` %ss | %s | %s: %s |" % (seed, needs[:150], chk, e["wall_s"] if e["wall_s"] is not None else "–", verdict, by, e["first_failure"]))
